@@ -18,6 +18,7 @@ C04 (apply_galois_inplace) [N]: symbolic buffer contents through the block marke
   applied; the NAF loop re-applies to the same ciphertext and key set with the loop variable as step;
   conjugation uses the element of step 0.
 """
+import re
 from facts import walk, callee, root_local, strip, local_of, target_key, Tree
 from flow import Flow
 
@@ -237,7 +238,7 @@ def run_c04(facts, rep):
     p = "evaluator::Evaluator::apply_galois_inplace"
     if not rep.anchor(R, p, p in facts.hir):
         return
-    body = facts.hir[p]
+    body = facts.inlined(p, pred=facts.extracted_helper)       # a per-polynomial helper is read in place
     it = facts.items[p]
     rep.fn(p)
     enc_lid = None
@@ -245,6 +246,23 @@ def run_c04(facts, rep):
         if pp["pat"].get("k") == "PBind" and pp.get("ty", "").endswith("text::Ciphertext"):
             enc_lid = pp["pat"]["lid"]
     results = []
+    # parameters of inlined helpers: aliases of the caller's locals / literal arguments
+    alias, lits = {}, {}
+    for x in walk(body):
+        if x.get("k") == "Inl":
+            for st_ in x["stmts"]:
+                if st_["pat"].get("k") == "PBind":
+                    i0 = strip(st_["init"])
+                    if i0.get("k") == "Lit":
+                        lits[st_["pat"]["lid"]] = i0["v"]
+                    elif local_of(i0):
+                        alias[st_["pat"]["lid"]] = local_of(i0)[0]
+
+    def res(lid):
+        for _ in range(6):
+            if lid in alias:
+                lid = alias[lid]
+        return lid
 
     def buf_of(e):
         """('poly', k) for encrypted.poly(k)/poly_mut(k); ('loc', lid) for a local buffer"""
@@ -252,11 +270,12 @@ def run_c04(facts, rep):
         if e.get("k") == "MCall" and e.get("name") in ("poly", "poly_mut"):
             rl = root_local(e["recv"])
             a = strip(e["args"][0]) if e["args"] else {}
-            if rl and rl[0] == enc_lid and a.get("k") == "Lit":
-                return ("poly", a["v"])
+            v = a.get("v") if a.get("k") == "Lit" else (lits.get(local_of(a)[0]) if local_of(a) else None)
+            if rl and res(rl[0]) == enc_lid and v is not None:
+                return ("poly", re.sub(r"_?usize$", "", str(v)))
         lo = local_of(e)
         if lo:
-            return ("loc", lo[0])
+            return ("loc", res(lo[0]))
         return None
 
     def join(a, b):
@@ -334,9 +353,10 @@ def run_c04(facts, rep):
                 else:
                     rep.violation(R, r + "/tested-applied", "rotate_internal tests the key for one Galois element and "
                                   "applies another", facts.loc(r, ag[0]))
-                rec = [y for y in walk(x.get("el") or {}) if (callee(y) or {}).get("name") == "rotate_internal"]
+                in_th = {id(z) for z in walk(x["th"])}
+                rec = [y for y in walk(rb) if (callee(y) or {}).get("name") == "rotate_internal" and id(y) not in in_th]
                 for y in rec:
-                    loops = [f for f in walk(x["el"]) if f.get("k") == "For" and any(z is y for z in walk(f["body"]))]
+                    loops = [f for f in walk(rb) if f.get("k") == "For" and any(z is y for z in walk(f["body"]))]
                     lv = _loop_var(loops[0]) if loops else None
                     a = y["args"]
                     names = [(local_of(z) or (None, None))[1] for z in a]
@@ -356,8 +376,10 @@ def run_c04(facts, rep):
         rep.fn(c)
         ag = [y for y in walk(facts.hir[c]) if (callee(y) or {}).get("name") == "apply_galois_inplace"]
         good = False
+        from facts import Defs as _Defs
+        cdefs = _Defs(facts.hir[c])
         for y in ag:
-            for z in walk(y["args"][1]):
+            for z in cdefs.closure(y["args"][1]):
                 if (callee(z) or {}).get("name") == "get_elt_from_step":
                     a0 = strip(z["args"][0])
                     good = a0.get("k") == "Lit" and a0.get("v") == "0"
